@@ -1196,11 +1196,17 @@ func exec(r *hx.Run, prog []json.RawMessage) {
 		if len(r.Viol) == 0 {
 			w.readAll(model.Inf, "quiescent")
 		}
+		if r.CfgBool("filecheck") && len(r.Viol) == 0 {
+			w.fileChecks() // file layout right after the workload (tombstones not yet compacted away)
+		}
 		if len(r.Viol) == 0 && !r.CfgBool("nosettle") {
 			simrt.Sleep(time.Duration(r.CfgInt("settle_s", 40))*time.Second, 0)
 			w.readAll(model.Inf, "settled")
 		}
 		w.coverage()
+		if r.CfgBool("filecheck") && len(r.Viol) == 0 {
+			w.fileChecks()
+		}
 		if w.exact && len(r.Viol) == 0 {
 			w.checkTypes(w.typeOf, w.typeOf, "quiescent")
 		}
